@@ -119,8 +119,19 @@ func (d *Dynamic) Draw(ctx vxfw.DrawContext) (vxfw.Surface, error) {
 
 	s := vxfw.NewSurface(ctx.Max.Width, ctx.Max.Height, d)
 
-	// The builder may have fewer widgets than at the last draw. If the top
-	// widget is gone, start from the last one that still exists
+	// The builder may have fewer widgets than at the last draw, or the
+	// cursor was set past the last one. If the cursored widget does not
+	// exist, select the last one that does and bring it into view
+	cursor := d.cursor
+	for d.cursor > 0 && d.Builder(d.cursor, d.cursor) == nil {
+		d.cursor -= 1
+	}
+	if d.cursor != cursor {
+		d.ensureScroll()
+	}
+
+	// Likewise, if the top widget is gone, start from the last one that
+	// still exists
 	for d.scroll.top > 0 && d.Builder(d.scroll.top, d.cursor) == nil {
 		d.scroll.top -= 1
 		d.scroll.offset = 0
